@@ -4,6 +4,7 @@ import itertools
 
 import canon_common as cc
 import lib
+import punylaws
 import urlgen
 import urlrt
 
@@ -13,6 +14,11 @@ THEOREMS = [
     "Ural.Props.C01.canon_scheme",
     "Ural.Props.C01.canon_userinfo",
     "Ural.Props.C01.canon_host",
+    "Ural.Props.C01.canon_host_name",
+    "Ural.Props.C01.canon_host_key",
+    "Ural.Props.C01.canonicalize_same_host_name",
+    "Ural.Canonicalize.hostKey_canonHost",
+    "Ural.Canonicalize.idnaLaws_id",
     "Ural.Props.C01.canon_port",
     "Ural.Props.C01.canon_query",
     "Ural.Props.C01.canon_fragment",
@@ -64,6 +70,11 @@ RULE = (
     "trailing slash, ordered decoded query items, decoded fragment) of the re-parsed output "
     "equals that of the cleaned input. quick: every atom sequence of length <= 1 in each "
     "component + the structure sweep + seeded random URLs; thorough: length <= 2 + more random. "
+    "ACE label class (harness/punylaws.py): every label of the enumerated class (one character of every stringprep / NFKC-look-alike / "
+    "Latin-1 + Latin Extended-A class alone and next to ASCII, every pair of 48 class representatives (thorough: triples), ASCII-only and "
+    "empty payloads, non-punycode text behind the header, doubly encoded labels, lengths around 63, header / payload case) in front of a "
+    "TLD and by rotation alone, behind www., next to a Unicode label, upper-cased, as TLD, doubled; five URL shapes; the oracle evaluates "
+    "the decoder's laws on the labels of every case and compares the ASCII-compatible spelling of the hosts. "
     "Non-trivial = output differs from input and the URL has an escape, a dot segment, "
     "userinfo, a port or a non-ASCII character; distinct = distinct (url, options). "
     "Parser/printer round trip streams (harness/urlrt.py), on every case: the model's OWN urlsplit + "
@@ -79,15 +90,16 @@ RULE = (
     "literal) are withheld from these streams and counted (label outside-model:*)."
 )
 EXHAUSTIVE = {
-    "quick": "every atom sequence of length <= 1 (66+ atoms) in each of user, password, path segment, query key, query value, fragment x 4 option settings; structure sweep (scheme x host x port, dot-segment paths x query x fragment, userinfo shapes)",
+    "quick": "the enumerated ACE label class (5806 labels: single characters of every class, pairs of class representatives) in hosts; every atom sequence of length <= 1 (66+ atoms) in each of user, password, path segment, query key, query value, fragment x 4 option settings; structure sweep (scheme x host x port, dot-segment paths x query x fragment, userinfo shapes)",
     "thorough": "the same with every atom sequence of length <= 2",
 }
 TRUSTED = [
     "Lean 4 kernel; axioms audited",
     "urlsplit and the SplitResult accessors (.username .password .hostname .port) are MODELLED (Py/UrlSplit.lean, Py/UrlAccessors.lean) and compared with CPython on every run on the raw, cleaned and printed strings of every case and on the netloc torture strings; the old ops still ship the real parser's components to canonParts, the new op canonicalize_whole lets the model parse by itself, so both ties run; urlunsplit is modelled twice (UrlParts.urlunsplit, Py.urlunsplit20), proved equal (urlunsplit_models_agree) and both compared with the real one",
     "outside the parser model (withheld from the parse streams, counted): str.lower on non-ASCII cased characters of the host, _checknetloc (NFKC), IPv4 tail inside an IPv6 literal; _check_bracketed_host is otherwise the approximation bracketedHostOk",
-    "PunyClean (the idna decoder brings in no URL delimiter, '%', control or white-space character that its input did not hold, and decodes no label to the empty string) is assumed by the round-trip theorems and tested on the real codec for every label decoded in a run, next to PunyLaws",
-    "attempt_to_decode_idna (CPython idna codec) is the abstract parameter `puny`; the driver uses a per-case table computed by the real codec",
+    "the label decoder (decode_punycode_hostname on ONE xn-- label; CPython's idna codec underneath) is the abstract parameter `puny`; the driver uses a per-case table of the real function's answers (harness/punylaws.py: decode_label), so the model follows what the host rule really calls and the LAWS stand between a changed decoder and the theorems",
+    "the laws assumed of `puny` are hypotheses of the theorems, evaluated on the real decoder for every label of every case and for every label of an enumerated class of ACE labels put into hosts of the case stream (quick: 5806 labels, 7742 hosts; derived from the stringprep tables, NFKC look-alikes of the URL delimiters, the punycode grammar; harness/punylaws.py): PunyLaws (no dot, stable), PunyClean (brings in no URL delimiter, '%', control or white-space character, decodes no label to the empty string), IdnaLaws.same_name (the decoded label has the ASCII-compatible spelling of the label it was given: decoding never changes the NAME). The real decoder breaks same_name exactly on KF-C01-3",
+    "`ace` (the meaning of 'IDNA spelling': ToASCII of one label + ASCII lower-casing) is CPython's idna ENCODER, which ural does not use; abstract in the theorems, its law ace_lower is evaluated per label",
     "hand-written model Model/Canonicalize.lean + Model/UrlParts.lean + Model/Quote.lean, tied to the code by differential execution",
     "str.lower / str.strip on non-ASCII characters outside the model alphabet (DESIGN §4) are not modelled",
 ]
@@ -107,7 +119,11 @@ UNPROVED = (
     "bracket hypothesis is left (the former NoOddBracket / hbr region were KF-C01-1, KF-C01-2, now fixed). The default protocol must be "
     "scheme-shaped (DefaultProtocolOk), otherwise the cleaned string has no scheme. NOT theorems: that the "
     "Lean parser model IS CPython's urlsplit + accessors (compared on every run on raw / cleaned / printed "
-    "strings and on the netloc torture strings), and the IDNA codec (abstract, PunyLaws + PunyClean, tested)"
+    "strings and on the netloc torture strings), and the IDNA codec: the host clause (canon_host_name / canonicalize_same_host_name: "
+    "same ASCII-compatible spelling label by label) is a theorem for every decoder that keeps the name of the xn-- labels of the "
+    "host (SameNameOn; IdnaLaws.same_name), next to PunyLaws + PunyClean; that the real decoder does is evaluated per label on every "
+    "run, not proved - and it does not on KF-C01-3 (a decoded U+3002); KF-C01-4 (a decoded character unknown to Unicode 3.2 whose "
+    "NFKC form holds a delimiter makes urlsplit refuse the output) lies in the NFKC check, outside the parser model"
 )
 OPTS = [(False, False), (True, False), (False, True), (True, True)]
 DPS = ["https", "https", "http", "ftp", "https://", "wss:"]
@@ -129,10 +145,27 @@ CORPUS = [
 ]
 
 
+ACE_SHAPES = ["http://%s/", "https://u:p@%s:8080/p?q#f", "%s/p", "//%s", "HTTP://%s:80?q"]
+ACE_ALL_OPTS = ("ascii-payload", "raw-payload", "double", "long", "char:idna-dot")
+
+
+def ace_cases(tier):
+    for k, (host, name, i) in enumerate(punylaws.class_hosts(tier)):
+        url = ACE_SHAPES[k % len(ACE_SHAPES)] % host
+        for q, sf in (OPTS if name.replace("case:", "") in ACE_ALL_OPTS else [OPTS[k % 4]]):
+            c = _mk({"raw": url}, q, sf)
+            c["ace"] = name
+            yield c
+
+
 def cases(rng, tier):
     for u in CORPUS:
         for q, sf in OPTS:
             yield _mk({"raw": u}, q, sf)
+    # the enumerated class of ACE labels (harness/punylaws.py) inside hosts: the laws the host
+    # theorems assume of the real decoder are evaluated on every one of them by the oracle
+    for c in ace_cases(tier):
+        yield c
     for p in urlgen.structure_sweep():
         for q, sf in OPTS:
             yield _mk(p, q, sf)
@@ -174,10 +207,9 @@ def oracle(case):
         return "cleaning raised %s: %s" % (type(e).__name__, e)
     if cc.parse(cleaned) is None:
         return None  # does not parse: outside the property
-    # the hypotheses the theorems make on attempt_to_decode_idna, on the real codec
-    bad = urlrt.puny_laws_failure(urlrt.puny_of(cleaned))
-    if bad:
-        return bad
+    # the hypotheses the theorems make of the label decoder (PunyLaws, PunyClean, IdnaLaws), on the
+    # real decode_punycode_hostname, for every xn-- label of this host
+    lawbad = urlrt.puny_laws_failure(urlrt.puny_of(cleaned))
     try:
         out = canonicalize_url(url, default_protocol=case["dp"], quoted=case["quoted"], strip_fragment=case["strip_fragment"])
     except Exception as e:  # noqa
@@ -190,9 +222,13 @@ def oracle(case):
     try:
         v_out = cc.view(out, case["strip_fragment"])
     except ValueError as e:
-        return "canonicalize_url(%r) = %r no longer parses: %s" % (url, out, e)
+        return "canonicalize_url(%r) = %r no longer parses: %s%s" % (url, out, e, " [%s]" % lawbad if lawbad else "")
     v_in = cc.view(cleaned, case["strip_fragment"])
-    for k in v_in:
+    # every clause but the host first, then the decoder's laws (the cause of a host that changed),
+    # then the host clause itself: same ASCII-compatible spelling, label by label
+    for k in [k for k in v_in if k != "host"] + ["host"]:
+        if k == "host" and lawbad:
+            return "%s; canonicalize_url(%r) = %r" % (lawbad, url, out)
         if v_in[k] != v_out[k]:
             return "canonicalize_url(%r, quoted=%s, strip_fragment=%s) = %r: %s was %r, is %r" % (
                 url, case["quoted"], case["strip_fragment"], out, k, v_in[k], v_out[k])
@@ -205,6 +241,59 @@ def oracle(case):
         if not rest.isascii():
             return "canonicalize_url(%r, quoted=True) = %r is not quoted" % (url, out)
     return None
+
+
+def kf_idna_ideographic_full_stop(case, failure):
+    """KF-C01-3: the only law failures of the case are IdnaLaws.same_name on labels that CPython's
+    own idna codec (not ural) decodes - its round-trip check passes - to the very text ural
+    returns, and that text holds U+3002 IDEOGRAPHIC FULL STOP, which IDNA reads as a label
+    separator ('xn--ab-r13a' -> 'a。b': the canonical host has one label more)"""
+    if not failure.startswith("IdnaLaws.same_name fails"):
+        return False
+    tab = urlrt.puny_of(cc.clean_impl(_url(case), case["dp"]))
+    n = 0
+    for x, d in tab.items():
+        for f in punylaws.label_failures(x, d):
+            if f[:2] != ("IdnaLaws", "same_name"):
+                return False
+            try:
+                ref = x.encode("ascii").decode("idna")
+            except UnicodeError:
+                return False
+            if ref != d or punylaws.IDEOGRAPHIC_FULL_STOP not in d:
+                return False
+            n += 1
+    return n > 0
+
+
+def kf_idna_late_delimiter_lookalike(case, failure):
+    """KF-C01-4: the output is refused by urlsplit's NFKC check (and by nothing else: no law of the
+    decoder fails) because a label of the host is an ACE label that CPython's own idna codec
+    decodes to the very text ural returns, and that text holds a character that Unicode 3.2 (the
+    codec's database) does not know and whose compatibility form in today's Unicode holds one of
+    '/?#@:' (U+FE13 -> ':', U+FE16 -> '?')"""
+    import unicodedata
+
+    if "no longer parses" not in failure or "under NFKC normalization" not in failure or failure.endswith("]"):
+        return False
+    tab = urlrt.puny_of(cc.clean_impl(_url(case), case["dp"]))
+    if punylaws.failures(tab):
+        return False
+    n = 0
+    for x, d in tab.items():
+        try:
+            ref = x.encode("ascii").decode("idna")
+        except UnicodeError:
+            ref = x
+        if ref != d:
+            return False
+        for c in d:
+            now = unicodedata.normalize("NFKC", c)
+            if now != c and any(k in now for k in "/?#@:"):
+                if unicodedata.ucd_3_2_0.category(c) != "Cn":
+                    return False
+                n += 1
+    return n > 0
 
 
 def nontrivial(case):
@@ -225,7 +314,9 @@ def classify(case):
         labs.append("non-ascii")
     if "/." in url:
         labs.append("dot-segment")
-    if "raw" in case["parts"]:
+    if case.get("ace"):
+        labs.append("ace-label:" + case["ace"].replace("case:", ""))
+    elif "raw" in case["parts"]:
         labs.append("raw-string")
     w = urlrt.outside_model(url)
     if w:
